@@ -218,6 +218,8 @@ def refusal(ex, s, u, limit):
 def check_unit(ex, s, u, d, seen, order, sync, limit):
     e = u['e']
     if not d['live']:
+        if d.get('live_any') and u['kind'] == 'post':
+            check_post_to_ws_session(ex, s, u, d, limit)
         return
     from props.c05 import fresh_until
     if e['t'] > fresh_until(ex, s, e['t']):
@@ -306,6 +308,36 @@ def check_unit(ex, s, u, d, seen, order, sync, limit):
                 raise V(ex, 'ws-bad-type-not-ignored', 'type=%d' % pt,
                         'session %d: frame of type %d ended the session (%r)' % (
                             s.ord, pt, disc[0][1]))
+
+
+def check_post_to_ws_session(ex, s, u, d, limit):
+    """A POST body is a polling carrier whatever transport the session named in it uses: a
+    packet type that clients may not send is a protocol error there - the request fails and the
+    session ends - also when the session began on WebSocket."""
+    from props.c05 import fresh_until
+    e = u['e']
+    if e['t'] > fresh_until(ex, s, e['t']) or refusal(ex, s, u, limit) or d['other_causes']:
+        return
+    if 'polling' not in (ex.config.get('transports') or ['polling', 'websocket']):
+        return      # the POST names a transport the server does not allow: refused at admission
+    bad = None
+    for k, (pt, allowed, binary) in enumerate(u['eff'][1]):
+        if pt == 1:
+            return
+        if pt in (0, 2, 6, 7, 8, 9):
+            bad = pt
+            break
+    if bad is None:
+        return
+    r = e['req']
+    if r.done and r.status == 200:
+        raise V(ex, 'bad-type-request-not-failed', 'type=%d|status=200|ws-session' % bad,
+                'session %d (on WebSocket): POST carrying packet type %d answered 200' % (
+                    s.ord, bad))
+    if r.done and not any(ev == 'disconnect' for _, ev, _ in ex.events_for(s)):
+        raise V(ex, 'bad-type-session-not-ended', 'type=%d|ws-session' % bad,
+                'session %d (on WebSocket): still alive after a POST with packet type %d' % (
+                    s.ord, bad))
 
 
 PROFILE = {
